@@ -143,6 +143,14 @@ func c06Honest(r *mon.Run, cfg c06cfg, jr *rand.Rand) (*c06run, error) {
 		}
 		run.Commit = b.CreateIssueCommitmentMessage(list)
 	} else {
+		if jr.IntN(3) == 0 {
+			// the issuer's first nonce was lost (time-out): the holder had already answered it and now answers the second one
+			// with the same builder
+			if _, e0 := b.CommitToSecretAndProve(randBig(jr, 80)); e0 != nil {
+				return nil, fmt.Errorf("CommitToSecretAndProve (abandoned attempt): %w", e0)
+			}
+			r.Add("commitments_retried_on_the_same_builder", 1)
+		}
 		run.Commit, err = b.CommitToSecretAndProve(n1)
 		if err != nil {
 			return nil, fmt.Errorf("CommitToSecretAndProve: %w", err)
